@@ -172,19 +172,18 @@ func (r *Router) handleHTTPRequest(ctx *Context) {
 		// copy: appending in place would write into the route's shared backing array
 		handlers = append(route.handlers[:len(route.handlers):len(route.handlers)], route.handler)
 	} else if len(allowed) > 0 { // method not allowed
-		if len(r.noAllowed) == 0 {
-			r.noAllowed = HandlersChain{internal405Handler}
-		}
-
 		// add allowed methods to context
 		ctx.Set(CTXAllowedMethods, allowed)
 		handlers = r.noAllowed
-	} else { // not found route
-		if len(r.noRoute) == 0 {
-			r.noRoute = HandlersChain{internal404Handler}
+		// the default is not stored on the router: requests must not write shared state
+		if len(handlers) == 0 {
+			handlers = HandlersChain{internal405Handler}
 		}
-
+	} else { // not found route
 		handlers = r.noRoute
+		if len(handlers) == 0 {
+			handlers = HandlersChain{internal404Handler}
+		}
 	}
 
 	// has global middleware handlers
